@@ -96,6 +96,12 @@ def gen_source(rnd, d, idx, used_keys, case_id=0):
         for n in names:
             if rnd.random() < 0.5:
                 rename[n] = rnd.choice(["r1", "r2", n + "_x"]) if rnd.random() < 0.85 else rnd.choice(names)
+    if len(names) >= 2 and rnd.random() < 0.15:
+        # a column renamed onto another column of the same source that is itself not renamed: a collision in either column order
+        a, b = rnd.sample(names, 2)
+        rename = {a: b}
+        if select is not None and rnd.random() < 0.5:
+            select = [a, b] if rnd.random() < 0.5 else [b, a]
     mode = rnd.choice(MODES) if rnd.random() < 0.5 else "by_position"
     # the YAML door leaves out defaults half of the time (source.mode defaults to by_position whatever the block's mode)
     return {"format": fmt, "path": path.name, "select": select, "rename": rename, "mode": mode, "_cols": cols,
